@@ -86,10 +86,26 @@ def ddata_canon(d):
     return {"attrs": attrs, "children": None if "children" not in d else [ddata_canon(c) for c in ch]}
 
 
-def ddata_build(j):
-    d = {k: json.loads(v) for k, v in j["attrs"]}
+def ddata_build(j, share=None):
+    """the dictionary described by `j`; with `share` (a dict used as memo) equal sub-dictionaries, children lists and
+    container values are ONE Python object used at several places (a template reused, YAML anchors, ...)"""
+    if share is not None:
+        key = "D" + json.dumps(j, sort_keys=True)
+        if key in share:
+            return share[key]
+    d = {}
+    for k, v in j["attrs"]:
+        if share is not None and v[:1] in "[{":
+            d[k] = share.setdefault("V" + v, json.loads(v))
+        else:
+            d[k] = json.loads(v)
     if j["children"] is not None:
-        d["children"] = [ddata_build(c) for c in j["children"]]
+        ch = [ddata_build(c, share) for c in j["children"]]
+        if share is not None:
+            ch = share.setdefault("L" + json.dumps(j["children"], sort_keys=True), ch)
+        d["children"] = ch
+    if share is not None:
+        share[key] = d
     return d
 
 
@@ -190,7 +206,7 @@ def impl(case):
     if d != d_copy:
         out["import_mutated_arg"] = True
     if "data" in case:
-        data = ddata_build(case["data"])
+        data = ddata_build(case["data"], {} if case.get("data_shared") else None)
         data_copy = copy.deepcopy(data)
         try:
             r = imp.import_(data)
